@@ -25,6 +25,7 @@ try:
         if is_test:
             return sh(["go", "test", "-vet=off", "-count=1", "-run", "Demo", "./" + pkgdir + "/"], repo)
         return sh(["go", "run", "./" + os.path.relpath(os.path.dirname(dst), repo)], repo)
+    os.makedirs(os.path.dirname(dst), exist_ok=True)  # a demo may ask for a directory of its own
     shutil.copy(os.path.join(src, demo), dst)
     rc, out = run_demo()
     meta["demo_passes_unchanged"] = rc == 0 and "no tests to run" not in out
